@@ -410,7 +410,14 @@ def c_value(ctx, case):
             if not refsem.consistent(got, want, faults):
                 finding = None
                 if has_zero_cse(e, smap):
-                    finding = None  # collapsing a zero CSE keeps the value: no excuse
+                    # collapsing a wrapper whose child became falsy to the constant 0 (the
+                    # recorded finding) keeps the VALUE 0 and not its kind: np.False_, 0.0,
+                    # -0.0 become the int 0 (3 / np.False_ is inf, 3 / 0 raises).  Explained
+                    # iff the independent rewrite WITH exactly that collapse gives what we got.
+                    coll = refsub(e, smap, collapse_cse=True)
+                    alt = refsem.outcome(lambda: refsem.ev(coll, env))
+                    if alt[0] == got[0] and (alt[0] != "v" or refsem.consistent(got, alt, faults)):
+                        finding = KF_CSE0
                 ctx.fail("C08.value", case, f"{name}:value:{got[0]}!={want[0]}",
                          f"{name}: e={e} map={_m(merged)} env={_e(env)}: substituted tree "
                          f"{tree} evaluates to {short(got)}, original under bound replacements "
